@@ -3,9 +3,42 @@ import json, os, sys, time, hashlib, subprocess, tempfile, shutil
 
 VERIF = os.path.dirname(os.path.dirname(os.path.abspath(__file__)))
 REPO = os.environ.get("VERIF_REPO", "/repo")
-CACHE = os.path.join(VERIF, ".cache")
-EVID = os.path.join(VERIF, "evidence")
-REPLAYS = os.path.join(VERIF, "evidence", "replays")
+# checks against an alternative tree (seeded-mutant evaluation in a scratch worktree) keep their build output apart
+CACHE = os.path.join(VERIF, ".cache") if REPO == "/repo" else os.path.join(VERIF, ".cache", "alt-" + hashlib.sha1(REPO.encode()).hexdigest()[:8])
+
+
+_CRATE_DIRS = {}
+
+
+def crate_dir(sub):
+    """directory of a harness crate under /verif (kani/<x> or replay); for an alternative tree a copy whose path
+    dependencies point at that tree"""
+    src = os.path.join(VERIF, sub)
+    if REPO == "/repo":
+        return src
+    if sub in _CRATE_DIRS:
+        return _CRATE_DIRS[sub]
+    dst = os.path.join(CACHE, "src", sub)
+    _CRATE_DIRS[sub] = dst
+    os.makedirs(os.path.dirname(dst), exist_ok=True)
+    if os.path.exists(dst):
+        shutil.rmtree(dst)
+    shutil.copytree(src, dst, ignore=shutil.ignore_patterns("target"))
+    for root, _, files in os.walk(dst):
+        for f in files:
+            if f in ("Cargo.toml",):
+                fp = os.path.join(root, f)
+                t = open(fp).read().replace('"/repo/', '"%s/' % REPO)
+                open(fp, "w").write(t)
+    # the shared helper sources are referenced by relative path
+    if sub.startswith("kani/"):
+        cdst = os.path.join(CACHE, "src", "kani", "common")
+        if os.path.exists(cdst):
+            shutil.rmtree(cdst)
+        shutil.copytree(os.path.join(VERIF, "kani", "common"), cdst)
+    return dst
+EVID = os.path.join(VERIF, "evidence") if os.environ.get("VERIF_REPO", "/repo") == "/repo" else os.path.join(VERIF, ".cache", "alt-evidence")
+REPLAYS = os.path.join(EVID, "replays")
 
 EXIT_OK, EXIT_VIOLATION, EXIT_INCONCLUSIVE = 0, 1, 2
 
